@@ -97,6 +97,14 @@ class Real:
 
     def parse_raw(self, sql, dialect="common", timeout=10, **kw):
         """-> ("ok", value) | ("err", class, loc, message)"""
+        try:
+            return self._parse_raw(sql, dialect, timeout, **kw)
+        except TimeoutError:
+            # the alarm went off while an outcome was being written down (inside an except clause): a timeout all the same
+            signal.setitimer(signal.ITIMER_REAL, 0)
+            return ("err", "Timeout", -1, "")
+
+    def _parse_raw(self, sql, dialect, timeout, **kw):
 
         def on_alarm(signum, frame):
             raise TimeoutError("watchdog")
